@@ -20,7 +20,8 @@ def _retry(f, *a):
     return f(*a)
 
 ASSUMPTIONS = [
-    "user pools keep the contract of abt.h: create_unit returns ABT_UNIT_NULL or a handle with bit 0 clear that differs from every live unit of every user pool; free_unit/push/pop are only observed, not modelled",
+    "user pools keep the contract of abt.h: create_unit returns ABT_UNIT_NULL or a handle with bit 0 clear that no OTHER work unit currently uses as unit (in any user pool: the table is global); different pools may hand out the same handle for the same work unit (e.g. its ABT_thread handle) - covered: unitmap_remap_same_unit, Legal in Proofs/Assoc, twin pools 5/6 of the API harness, remap ops of the white-box harness; free_unit/push/pop are only observed, not modelled",
+    "duplicates in the table are modelled only in the form abti_unit.h can produce: map(u,t) while u->t is mapped, followed by one unmap(u); the table is not claimed to be a general multimap (two different work units under one handle)",
     "ABT_UNIT_NULL is a parameter of the model (0x7 in this build, generated); ABTI_UNIT_HASH_TABLE_SIZE_EXP is generated; sizeof(uintptr_t) = 8",
     "interleaving model of unit.c is sequentially consistent at the granularity of single loads/stores of cell fields; the relaxed/plain accesses of `unit`/`p_thread` are single steps (C11 data-race freedom of the plain `p_thread` access rests on the contract that a get(u) runs only after map(u) completed)",
     "client contract of the table is a hypothesis of unitmap_lockfree_get / unitmap_refines_map: no get(u) concurrent with unmap(u) or with the map(u) that creates it (guards of Model.UnitMap.Step)",
@@ -100,6 +101,30 @@ def gen_unitmap(rng, nops, hist):
             else:
                 lines.append("map %d %d" % (u, t)); hist["map"] += 1
                 do_map(u, t, True)
+        elif r < 48 and live:
+            # what a move between two user pools sharing a handle does: map(u,t) again, then unmap(u) once
+            u = rng.choice(live)
+            if rng.chance(1, 3):
+                lines.append("mapf %d %d" % (u, mapped[u])); hist["remap_mapf"] += 1
+                ok = any(e[0] is None for e in chains[hidx(u)])
+            else:
+                lines.append("map %d %d" % (u, mapped[u])); hist["remap_map"] += 1
+                ok = True
+            if ok:
+                c = chains[hidx(u)]
+                for e in c:
+                    if e[0] is None:
+                        e[0], e[1] = u, mapped[u]
+                        break
+                else:
+                    c.insert(0, [u, mapped[u]])
+                lines.append("unmap %d" % u); hist["remap_unmap"] += 1
+                for e in c:
+                    if e[0] == u:
+                        e[0] = None
+                        break
+                if rng.chance(1, 2):
+                    lines.append("get %d" % u); hist["get"] += 1
         elif r < 65 and live:
             u = rng.choice(live)
             lines.append("unmap %d" % u); hist["unmap"] += 1
@@ -121,43 +146,50 @@ def crash_unitmap(lines, out, err):
     """The white-box harness died.  Was the operation it died in legal according to the implementation's own
     earlier reports (then the table broke its contract) or did an earlier *legitimate* difference (e.g. a map that
     needed memory under the injected malloc failure) make the generated sequence illegal?"""
-    m = set()
+    m = collections.Counter()
     for i, l in enumerate(lines):
         w = l.split()
         if i >= len(out) or out[i] == "":
-            if w[0] in ("unmap", "get") and w[1] not in m:
+            if w[0] in ("unmap", "get") and m[w[1]] <= 0:
                 return None
             return "aborted in `%s` (line %d), a legal operation: %s" % (l, i, err[-600:])
         o = out[i].split()
         if w[0] in ("new", "stress"):
-            m = set()
+            m = collections.Counter()
         elif w[0] in ("map", "mapf") and o[:2] == ["map", "0"]:
-            m.add(w[1])
+            m[w[1]] += 1
         elif w[0] == "unmap":
-            m.discard(w[1])
+            m[w[1]] -= 1
     return "aborted after the last operation: " + err[-600:]
 
 
 def oracle_unitmap(lines, out):
+    """multiset oracle: a handle may be mapped twice to the same work unit (move between pools sharing it)"""
     m = {}
+    cnt = collections.Counter()
     for i, l in enumerate(lines):
         if i >= len(out) or out[i] == "":
             return "missing output for line %d `%s`" % (i, l)
         w = l.split()
         o = out[i].split(" | ")[0].split()
         if w[0] == "new":
-            m = {}
+            m, cnt = {}, collections.Counter()
         elif w[0] == "stress":
-            m = {}
+            m, cnt = {}, collections.Counter()
             if o != ["stress", "ok"]:
                 return "line %d `%s`: concurrent map/get/unmap of colliding units failed: %s" % (i, l, out[i])
         elif w[0] in ("map", "mapf"):
             if o == ["map", "0"]:
+                if cnt[int(w[1])] > 0 and m.get(int(w[1])) != int(w[2]):
+                    return None  # two work units under one handle: outside the contract (shrunk input)
                 m[int(w[1])] = int(w[2])
+                cnt[int(w[1])] += 1
             elif not (w[0] == "mapf" and o[0] == "map"):
-                return "line %d `%s`: map of an unmapped unit with memory available reported %s" % (i, l, o)
+                return "line %d `%s`: map with memory available reported %s" % (i, l, o)
         elif w[0] == "unmap":
-            m.pop(int(w[1]), None)
+            cnt[int(w[1])] -= 1
+            if cnt[int(w[1])] <= 0:
+                m.pop(int(w[1]), None)
         elif w[0] == "get":
             exp = m.get(int(w[1]))
             if exp is None:
@@ -170,7 +202,7 @@ def oracle_unitmap(lines, out):
 # --------------------------------------------------------------------------
 # API level
 # --------------------------------------------------------------------------
-NPOOLS = 5
+NPOOLS = 7
 
 
 def is_user(p):
@@ -235,8 +267,8 @@ def gen_userpool(rng, nops, hist):
         term = [i for i, t in enumerate(s.th) if t["st"] == 3]
         nonempty = [p for p in range(NPOOLS) if s.q[p]]
         alive = [i for i, t in enumerate(s.th) if t["st"] != 0]
-        p = rng.choice([0, 1, 2, 2, 3, 3, 4, 4])
-        if r < 12 and len(alive) < 24 and live_units() < 40:
+        p = rng.choice([0, 1, 2, 3, 4, 5, 5, 5, 6, 6, 6])
+        if r < 12 and len(alive) < 24 and live_units() < 40 and len(s.th) < 500:
             k = rng.choice(["ult", "ult", "task"])
             emit("create %s %d" % (k, p), "create_" + ("user" if is_user(p) else "builtin"))
             if is_user(p) and s.fail[p]:
@@ -257,7 +289,8 @@ def gen_userpool(rng, nops, hist):
             op = rng.choice(["push", "push", "pushu", "setpool"])
             src = s.th[t]["pool"]
             emit("%s %d %d" % (op, t, p), "%s_%s_to_%s" % (op, "user" if is_user(src) else "builtin",
-                                                           "same" if src == p else "user" if is_user(p) else "builtin"))
+                                                           "same" if src == p else "twin" if src >= 5 and p >= 5 else
+                                                           "user" if is_user(p) else "builtin"))
             ok = s.assoc(t, p)
             if ok and op != "setpool":
                 s.q[p].append(t)
@@ -266,7 +299,8 @@ def gen_userpool(rng, nops, hist):
             t = rng.choice(hand)
             a = rng.choice(["f", "y", "y", "m", "m"])
             if a == "m":
-                emit("run %d m %d" % (t, p), "run_migrate")
+                emit("run %d m %d" % (t, p), "run_migrate_twin" if s.th[t]["pool"] >= 5 and p >= 5 and s.th[t]["pool"] != p
+                     else "run_migrate")
                 run(t, "m", p)
             else:
                 emit("run %d %s" % (t, a), "run_" + a)
@@ -283,7 +317,7 @@ def gen_userpool(rng, nops, hist):
             emit("free %d" % t, "free")
             s.th[t]["st"] = 0
         elif r < 88 and not all(s.fail[2:]):
-            pp = rng.choice([x for x in (2, 3, 4) if not s.fail[x]])
+            pp = rng.choice([x for x in (2, 3, 4, 5, 6) if not s.fail[x]])
             emit("fail %d" % pp, "fail")
             s.fail[pp] = True
         elif r < 95 and alive:
@@ -318,7 +352,7 @@ def gen_userpool(rng, nops, hist):
 def oracle_userpool(lines, out):
     """Independent of the Lean model: create/free pairing per (pool, unit), units handed to a pool are live,
     translation unit<->work unit, every work unit entered and finished once per create/revive."""
-    live = {}            # unit name -> (pool, thread)
+    live = {}            # (pool, unit name) -> thread
     runs = {}            # thread -> expected number of executions
     freed = set()
     for i, l in enumerate(lines):
@@ -334,27 +368,30 @@ def oracle_userpool(lines, out):
         for ev in parts[1:]:
             e = ev.split()
             if e[0] == "create" and e[3] != "null":
-                if e[3] in live:
-                    return "line %d `%s`: create_unit returned %s which is live (harness arena corrupted?)" % (i, l, e[3])
-                live[e[3]] = (e[1], e[2])
+                if (e[1], e[3]) in live:
+                    return "line %d `%s`: create_unit of %s returned %s which is live there" % (i, l, e[1], e[3])
+                others = [k for k, t in live.items() if k[1] == e[3] and t != e[2]]
+                if others:
+                    return "line %d `%s`: harness handed %s to two work units" % (i, l, e[3])
+                live[(e[1], e[3])] = e[2]
             elif e[0] == "free":
-                if e[2] not in live or live[e[2]][0] != e[1]:
+                if (e[1], e[2]) not in live:
                     return "line %d `%s`: free_unit(%s,%s) but that unit is not live in that pool" % (i, l, e[1], e[2])
-                del live[e[2]]
+                del live[(e[1], e[2])]
             elif e[0] == "push":
-                if e[2] not in live or live[e[2]][0] != e[1]:
+                if (e[1], e[2]) not in live:
                     return "line %d `%s`: unit %s pushed to %s but it is not a live unit of that pool" % (i, l, e[2], e[1])
             elif e[0] == "pop" and e[2] != "none":
-                if e[2] not in live or live[e[2]][0] != e[1]:
+                if (e[1], e[2]) not in live:
                     return "line %d `%s`: pool %s handed out %s which is not live there" % (i, l, e[1], e[2])
-        owners = collections.Counter(t for (_, t) in live.values())
+        owners = collections.Counter(live.values())
         for t, n in owners.items():
             if n > 1:
                 return ("line %d `%s`: work unit %s owns %d live units %s: create_unit for the new association without "
-                        "free_unit for the old one" % (i, l, t, n, sorted(u for u, (_, tt) in live.items() if tt == t)))
+                        "free_unit for the old one" % (i, l, t, n, sorted(k for k, tt in live.items() if tt == t)))
         w = l.split()
         if w[0] == "free" and head[1] == "0":
-            left = sorted(u for u, (_, tt) in live.items() if tt == "t" + w[1])
+            left = sorted(k for k, tt in live.items() if tt == "t" + w[1])
             if left:
                 return "line %d `%s`: work unit freed but its unit(s) %s were never passed to free_unit" % (i, l, left)
             freed.add("t" + w[1])
@@ -366,15 +403,15 @@ def oracle_userpool(lines, out):
             # the work unit handed out must be the one whose unit the pool handed out
             for ev in parts[1:]:
                 e = ev.split()
-                if e[0] == "pop" and e[2] != "none" and live.get(e[2], (None, None))[1] != head[2]:
+                if e[0] == "pop" and e[2] != "none" and live.get((e[1], e[2])) != head[2]:
                     return "line %d `%s`: pool handed out %s (work unit %s) but the runtime returned %s" % (
-                        i, l, e[2], live.get(e[2]), head[2])
+                        i, l, e[2], live.get((e[1], e[2])), head[2])
         elif w[0] == "xlat":
             if head[2] == "builtin":
                 if head[3] != "t" + w[1]:
                     return "line %d `%s`: built-in unit of t%s translates to %s" % (i, l, w[1], head[3])
             else:
-                if head[3] != "t" + w[1] or live.get(head[2], (None, None))[1] != "t" + w[1]:
+                if head[3] != "t" + w[1] or not any(k[1] == head[2] and t == "t" + w[1] for k, t in live.items()):
                     return "line %d `%s`: unit/work-unit translation wrong: %s" % (i, l, o)
         elif w[0] == "fin":
             counts = head[1:]
@@ -405,18 +442,22 @@ def run_diff(res, what, model, exe, gen, oracle, rounds, nops, rng, hist, sample
             if rc_m != 0 or any(("bad-op" in x or "abort" in x) for x in om):
                 return False
             if model == "unitmap":
-                mapped = set()
+                mapped, cntm = {}, collections.Counter()
                 for l, o in zip(ls, om):
                     w = l.split()
                     if w[0] in ("new", "stress"):
-                        mapped = set()
+                        mapped, cntm = {}, collections.Counter()
                     elif w[0] in ("map", "mapf"):
-                        if w[1] in mapped:
+                        if cntm[w[1]] >= 2 or (cntm[w[1]] == 1 and mapped[w[1]] != w[2]):
                             return False
                         if o.startswith("map 0"):
-                            mapped.add(w[1])
-                    elif w[0] == "unmap":
-                        mapped.discard(w[1])
+                            mapped[w[1]] = w[2]
+                            cntm[w[1]] += 1
+                    elif w[0] in ("unmap", "get"):
+                        if cntm[w[1]] <= 0:
+                            return False
+                        if w[0] == "unmap":
+                            cntm[w[1]] -= 1
             return True
 
         def judge(ls):
